@@ -1114,10 +1114,14 @@ class CanBeVaries(Element):
                 reference = ('sequence', children_refs, datatype, None, None, -1)
 
         if name is not None and _valid_child_name(name, 'VARIES'):
-            # Set name to None because with a VARIES name the Element would raise an Exception
-            Element.__init__(self, None, parent, reference, version,
-                             validation_level, traversal_parent)
+            # Set name to None because with a VARIES name the Element would raise an Exception; the element
+            # is attached once it has its name, the parent looks its children up by name
+            Element.__init__(self, None, None, reference, version,
+                             validation_level, None)
             self.name = name.upper()
+            self.parent = parent
+            if parent is None:
+                self.traversal_parent = traversal_parent
         else:
             try:
                 Element.__init__(self, name, parent, reference, version,
